@@ -13,7 +13,7 @@ NOTES = ("Solver-based checking of the real code. Exit 0 = all explored obligati
 CHECKS["C13"] = dict(
     engine="E1-crosshair", ref="DESIGN.md §3.1",
     technique="CrossHair/z3 symbolic execution of the real position algebra, generators, reducer and counters (one-step inductive obligations + bounded end-to-end with symbolic filter masks)",
-    text="Bounded symbolic execution: each obligation is confirmed over all paths by CrossHair/z3 for symbolic positions (unbounded ints for the algebra), symbolic filter verdicts and child results; one-step obligations cover any depth by induction, the end-to-end obligation cross-checks the composition to depth 1 (quick) / 2 (thorough).",
+    text="Bounded symbolic execution: each obligation is confirmed over all paths by CrossHair/z3 for symbolic positions (unbounded ints for the algebra), symbolic filter verdicts and child results; one-step obligations cover any depth by induction, the end-to-end obligation cross-checks the composition to depth 1 (quick) / 2 (thorough); histories on ONE Pyramid object (counted and/or visited, then restricted with subpyramid(), then counted / walked / visited twice) give the answers of a fresh object.",
     note="CrossHair's int/list/tuple models; progress_bar/print stubbed; the induction gluing the one-step obligations is on paper (Appendix A-1..3); hashing symbolic Pos realises positions (enumerated within stated ranges).",
 )
 
@@ -33,7 +33,7 @@ CHECKS["C20"] = dict(
 CHECKS["C15"] = dict(
     engine="E2-symx-symnp", ref="DESIGN.md §4.1",
     technique="z3 via own symbolic execution (symx) of the real fill/update/clear/is_completely_masked/write_image/read_image with a lazy symbolic numpy: symbolic source shape, rectangle, pixel, channel and contents",
-    text="Per-pixel semantics decided by z3 for all 8 modes, symbolic source shape (<= 4096^2), symbolic rectangle (forward and reversed-row slice forms), symbolic inspected pixel/channel and arbitrary prior buffer; write_image unlink rule and read_image default handling for both prior file states. unsat = holds for every value in those bounds.",
+    text="Per-pixel semantics decided by z3 for all 8 modes, symbolic source shape (<= 4096^2), symbolic rectangle (forward and reversed-row slice forms; fill also from paired index arrays of 3 symbolic points, the chunk sampler's form), symbolic inspected pixel/channel and arbitrary prior buffer; write_image unlink rule and read_image default handling for both prior file states. unsat = holds for every value in those bounds.",
     note="numpy as modelled by symnp (validated each run against real numpy on solver-chosen inputs), floats as reals + NaN flag, codecs not symbolic (read-back through PNG/FITS/npy is outside the claim).",
 )
 
@@ -53,7 +53,7 @@ CHECKS["C14"] = dict(
 CHECKS["C08"] = dict(
     engine="E2-symx-symnp", ref="DESIGN.md §4.4",
     technique="z3 via own symbolic execution of the real StudyTiling (constructor, sub-image, image_to_tile, count, generator, tile_image) with SYMBOLIC image width/height, sub-image rectangle, pixel and tile index; tile loops summarised by one arbitrary / witness iteration",
-    text="For all widths and heights up to 2^12 (quick) / 2^20 (thorough) — symbolic, not sampled — z3 shows: smallest power-of-two square >= 256, centred offsets, level count, image_to_tile, count formula = enumeration size; every image pixel's witness tile is enumerated and its rectangle contains the pixel at the reported slot; rectangles of distinct tiles are disjoint and lie inside tile and image; the tile written for an arbitrary populated position holds the image pixels at their display slots and undefined values elsewhere, for 7 mode/format combinations, both parities and sub-images.",
+    text="For all widths and heights up to 2^12 (quick) / 2^20 (thorough) — symbolic, not sampled — z3 shows: smallest power-of-two square >= 256, centred offsets, level count, image_to_tile, count formula = enumeration size; every image pixel's witness tile is enumerated and its rectangle contains the pixel at the reported slot; rectangles of distinct tiles are disjoint and lie inside tile and image; the tile written for an arbitrary populated position holds the image pixels at their display slots and undefined values elsewhere, for 7 mode/format combinations, both parities and sub-images (also sub-tilings derived from a parent that was counted / enumerated before).",
     note="codecs = identity; int/range/min/max/progress_bar in toasty.study replaced by symbolic-aware equivalents; loop independence checked syntactically each run; sizes above the bound are outside the claim.",
 )
 
@@ -67,7 +67,7 @@ CHECKS["C11"] = dict(
 CHECKS["C16"] = dict(
     engine="E2-symx-symnp", ref="DESIGN.md §4.8",
     technique="z3 (QF_NRA polynomial identity) via own symbolic execution of the real parity functions on a symbolic linear WCS header; replays and vacuity twins run the same scenario with a genuine astropy WCS",
-    text="For symbolic real CDELT/PC/CRPIX (any rotation, scale, skew, reference pixel, both starting parities, PC off-diagonals present or absent), symbolic height and pixel: parity sign = -sign(det CD); flip_parity negates it, reverses the rows, and CD'.((x+1, H-y) - CRPIX') = CD.((x+1, y+1) - CRPIX); ensure_negative_parity yields -1, keeps sky positions and is idempotent — for Image and ImageDescription. Unbounded over the reals (no size bound except height <= 4096 for the row claim).",
+    text="For symbolic real CDELT/PC/CRPIX (any rotation, scale, skew, reference pixel, both starting parities, PC off-diagonals present or absent), symbolic height and pixel: parity sign = -sign(det CD); flip_parity negates it, reverses the rows, and CD'.((x+1, H-y) - CRPIX') = CD.((x+1, y+1) - CRPIX); ensure_negative_parity yields -1, keeps sky positions and is idempotent, also in an ensure / flip / ensure history on one object — for Image and ImageDescription. Unbounded over the reals (no size bound except height <= 4096 for the row claim).",
     note="astropy header<->WCS correspondence modelled by a stand-in (validated each run against real astropy via wcs_pix2world on solver-chosen numbers); non-linear distortions and float rounding outside.",
 )
 
@@ -80,26 +80,26 @@ CHECKS["C06"] = dict(
 CHECKS["C09"] = dict(
     engine="E2-symx-symnp", ref="DESIGN.md §4.5",
     technique="z3 via own symbolic execution of the real MultiTanProcessor (global pixelisation, serial tiling, worker body) with symbolic input sizes / grid offsets / contents, witness-tile loop summary, in-memory tile store with locks",
-    text="For 1-2 (thorough: 3) inputs of symbolic size and symbolic integer placement on the common grid (mosaic <= 2^10 / 2^13 px), all-bottom-up or all-top-down storage, both input orders, serial body and worker body, fits and npy tiles: the width/height/CRPIX/levels handed to the builder are those of the assembled mosaic, the inspected (symbolic) deepest-level tile equals the study tile of the mosaic at a symbolic pixel with undefined pixels never overwriting defined ones, every lock is taken on that tile's own path and released, and the clean-up level equals the tile level.",
+    text="For 1-2 (thorough: 3) inputs of symbolic size and symbolic integer placement on the common grid (mosaic <= 2^10 / 2^13 px), all-bottom-up, all-top-down or mixed storage parity (CD-matrix headers), both input orders, serial body and worker body, fits and npy tiles: the width/height/CRPIX/levels handed to the builder are those of the assembled mosaic, the inspected (symbolic) deepest-level tile equals the study tile of the mosaic at a symbolic pixel with undefined pixels never overwriting defined ones, every lock is taken on that tile's own path and released, and the clean-up level equals the tile level.",
     note="integer offsets only; overlapping inputs agree where both defined; WCS stand-in as validated in C16; set_position_from_wcs (external) not executed; cross-process contention is C10.",
 )
 CHECKS["C12"] = dict(
     engine="E2-symx-symnp", ref="DESIGN.md §4.11",
     technique="z3 (linear real arithmetic over the concrete tile geometry) via own symbolic execution of the real toast_tile_for_point / containment score / _div4 with a symbolic point; inductive rule + cover obligations for every tile up to the depth bound",
-    text="For every direction on the sphere (symbolic), both coordinate systems: the real level-1 selection returns a tile containing the point (lon + 2*pi*m likewise); one real loop iteration with symbolic scores picks the first zero-score child else the best; for EVERY tile of levels 1..D-1 (D = 4 quick, 6 thorough) the children produced by the real _div4 and scored by the real containment function cover the parent up to a 1e-12 rounding tolerance => by induction the depth-d tile contains the point; nesting cross-checked end-to-end to depth 2. toast_pixel_for_point: for every real tile of levels 1..3 (5 thorough) z3 looks for a documented query longitude in the tile's range that is more than pi away (as a number) from the tile's pixel longitudes; hits are replayed against the nearest pixel centre.",
+    text="For every direction on the sphere (symbolic), both coordinate systems: the real level-1 selection returns a tile containing the point (lon + 2*pi*m likewise); one real loop iteration with symbolic scores picks the first zero-score child else the best; for EVERY tile of levels 1..D-1 (D = 4 quick, 6 thorough) the children produced by the real _div4 and scored by the real containment function cover the parent up to a 1e-12 rounding tolerance => by induction the depth-d tile contains the point; nesting cross-checked end-to-end to depth 2. toast_pixel_for_point: for every real tile of levels 1..3 (5 thorough) z3 looks for a documented query longitude in the tile's range that is more than pi away (as a number) from the tile's pixel longitudes; hits are replayed against the nearest pixel centre; on an affine pixel grid (where the exact least-squares solution is known in closed form) the real stamp / origin arithmetic around the fit returns the point's own fractional position for a nearest pixel anywhere in the tile, truncated stamps included.",
     note="Cartesian direction tied to longitude by sign facts of sin/cos only; concrete double geometry evaluated exactly; of the 2-pixel accuracy of toast_pixel_for_point only the longitude-branch consistency is decided (the least-squares fit itself is not encodable).",
 )
 
 CHECKS["C01"] = dict(
     engine="E3-bmc", ref="DESIGN.md §3.2",
     technique="z3 QF_BV bounded model checking of the walk protocol (dispatcher release table learned from the real loop, worker table and shutdown script extracted from the real code; schedule and tile liveness symbolic) + CrossHair/z3 one-step obligations for the serial walk",
-    text="Parallel: for ALL schedules of dispatcher, feeder threads and 2 (thorough: 3) workers and ALL liveness patterns on three tree shapes (root+4 children; depth-3 slice with dispatcher-released intermediate parents; sub-pyramid apex), z3 shows every live non-leaf tile's callback runs exactly once and only after its live children's callbacks ended, no deadlock, and termination with walk() returned; the step bound is complete for each configuration. Serial: inductive one-step obligations + end-to-end comparison with the post-order reference for symbolic filter masks.",
+    text="Parallel: for ALL schedules of dispatcher, feeder threads and 2 (thorough: 3) workers and ALL liveness patterns on three tree shapes (root+4 children; depth-3 slice with dispatcher-released intermediate parents; sub-pyramid apex), z3 shows every live non-leaf tile's callback runs exactly once and only after its live children's callbacks ended, no deadlock, and termination with walk() returned; the step bound is complete for each configuration. A receive time-out in the real dispatch loop is extracted to be a no-op (nothing released / flagged), on a pyramid with filter-accepted tiles that have no live child. Serial: inductive one-step obligations + end-to-end comparison with the post-order reference for symbolic filter masks.",
     note="multiprocessing = trusted model (bounded queues with feeder buffers, time-out only on an empty pipe, weak fairness); the learned dispatcher table is position-independent (checked at two positions); deeper trees by an abstraction argument (Appendix A-4).",
 )
 CHECKS["C03"] = dict(
     engine="E3-bmc", ref="DESIGN.md §3.3",
     technique="z3 QF_BV bounded model checking of each producer/worker stage (producer script and worker reaction table extracted from the real functions; schedule symbolic, complete bound) with deterministic-scheduler replay on the real code",
-    text="For leaf visits, transforms, multi-TAN and multi-WCS tiling: for ALL interleavings of producer, feeder flushes, worker receives/time-outs/callbacks/exits with 1-2 items and 2 workers (thorough: up to 5 items, 3 workers) and the queue capacity the code passes, z3 shows the entry point returns only after every item's callback completed and every worker exited, each item is processed exactly once, no deadlock, termination; the real producer enqueues exactly the serial item set; a producer whose put() has a time-out offers the item again after queue.Full (extracted; a dropped item is confirmed by a directed schedule on the real code).",
+    text="For leaf visits, transforms, multi-TAN and multi-WCS tiling: for ALL interleavings of producer, feeder flushes, worker receives/time-outs/callbacks/exits with 1-2 items and 2 workers (thorough: up to 5 items, 3 workers) and the queue capacity the code passes, z3 shows the entry point returns only after every item's callback completed and every worker exited, each item is processed exactly once, no deadlock, termination; the work items the real producer's messages stand for (each message expanded by the REAL worker function, started with the arguments the real entry point gives it) are exactly the serial item set; a producer whose put() has a time-out offers the item again after queue.Full (extracted; a dropped item is confirmed by a directed schedule on the real code).",
     note="trusted model of multiprocessing; worker = memoryless loop inferred by exhaustive probing of the real function (fails closed); pipe order not modelled (over-approximation).",
 )
 
@@ -107,13 +107,13 @@ CHECKS["C19"] = dict(
     engine="E3-bmc", ref="DESIGN.md §3.5",
     technique="z3 QF_BV bounded model checking of the C03 stage models and the C01 walk model with one symbolic failing callback (fault position and schedule are solver variables); failure detection extracted by running the real entry points against failing fake processes; replay with the failure injected",
     text="For all four producer/worker stages and the parallel walk, for ALL schedules and every position of a single failing callback, z3 shows the entry point terminates by raising: it neither returns normally with an incomplete result nor waits forever. Serial modes are executed and re-raise.",
-    note="a raising callback kills its worker (non-zero exit code) as multiprocessing does; trusted multiprocessing model; exactly one fault; detection points are where the real code reads exitcode / is_alive and raises.",
+    note="the worker's reaction to a raising callback is EXTRACTED from the real worker function (the exception leaves it = process dies non-zero; or it is swallowed and the worker exits 0 / keeps going / keeps going and exits non-zero) and modelled accordingly; trusted multiprocessing model; exactly one fault; detection points are where the real code reads exitcode / is_alive and raises.",
 )
 
 CHECKS["C10"] = dict(
     engine="E3-bmc", ref="DESIGN.md §3.4",
     technique="z3 QF_BV bounded model checking of N updaters following the step scripts extracted from the real update_image by symbolic execution over its environment (lock-file existence / age and the clock are symbolic: one script per environment answer; lock acquire/read/modify/write-begin/write-end/release, probes and unlinks of the lock file, lock path identity) + CrossHair on the lock path function",
-    text="For ALL interleavings of 2 (thorough: 3) concurrent updaters of one tile, z3 shows the final tile holds every contribution, no updater reads between another's write-begin and write-end, and all finish; the lock-free variant of the same model is shown to lose an update (non-vacuity). CrossHair confirms the lock path depends on the position only (any format argument, both naming schemes) and differs between tiles.",
+    text="For ALL interleavings of 2 (thorough: 3) concurrent updaters of one tile, z3 shows the final tile holds every contribution, no updater reads between another's write-begin and write-end, and all finish; the lock-free variant of the same model is shown to lose an update (non-vacuity). What the real multi_tan / multi_wcs worker functions do to lock files outside update_image is extracted (nothing, on the unchanged tree); a worker that unlinks its tiles' locks when it runs out of work is model-checked with 3 workers and replayed through the real worker functions. CrossHair confirms the lock path depends on the position only (any format argument, both naming schemes) and differs between tiles.",
     note="SoftFileLock trusted as an atomic create-exclusive lock on a marker file; os.path / os.stat / time of toasty.pyramid are environment stubs during extraction (any file age is possible); writes modelled as two steps; replay runs the real update_image on real npy files and real marker files under the solver's interleaving and clock.",
 )
 
@@ -126,19 +126,19 @@ CHECKS["C04"] = dict(
 CHECKS["C05"] = dict(
     engine="E4-decy-euf", ref="DESIGN.md §4.9",
     technique="z3 EUF: the decythonised recursive _subsample and the real toast._div4 executed on opaque points with an uninterpreted commutative midpoint; equality of all n x n centre terms",
-    text="For symbolic tile corners and both diagonal orientations z3 shows the coordinate written at [row i, col j] of the n x n grid is the centre term of the descendant (2^k x + j, 2^k y + i) produced by the real _div4, for n = 1..16 (quick) and the real n = 256 (65 536 centres, thorough); toast_tile_get_coords passes corners/orientation in the right order.",
+    text="For symbolic tile corners and both diagonal orientations z3 shows the coordinate written at [row i, col j] of the n x n grid is the centre term of the descendant (2^k x + j, 2^k y + i) produced by the real _div4, for n = 1..16 (quick) and the real n = 256 (65 536 centres, thorough); over a 6-call history (same position with other corners / orientation, same corners elsewhere, deeper level) toast_tile_get_coords computes every call from the tile's own corners/orientation in the right order.",
     note="midpoint uninterpreted (its meaning is C04); points, not longitudes modulo 2*pi; the latitude-range sentence is trigonometric and not decided; compiled extension validated differentially.",
 )
 CHECKS["C17"] = dict(
     engine="E1-crosshair", ref="DESIGN.md §4.12",
     technique="CrossHair/z3 on the real PyramidIO path functions with symbolic decimal strings + z3 string theory for injectivity of the recorded URL template + execution of every FitsTiler.tile() directory history with the real WTML writer/parser",
-    text="Expanding the template recorded by the real PyramidIO with symbolic (level, x, y) digit strings gives the path _tile_path writes (both schemes); z3 (strings) shows the expansion is injective on decimal strings <= 6 digits; Builder records '.'+format and scheme+format; toast_base records the depth; all 6 histories (fresh / reused / override x TAN / TOAST) return a builder equal to the index_rel.wtml on disk.",
+    text="Expanding the template recorded by the real PyramidIO with symbolic (level, x, y) digit strings gives the path _tile_path writes (both schemes); z3 (strings) shows the expansion is injective on decimal strings <= 6 digits; Builder records '.'+format and scheme+format; toast_base records the depth; the real FitsTiler._tile_toast over collections of up to 3 images with symbolic per-image levels samples every input into one common layer and records that depth; all 6 histories (fresh / reused / override x TAN / TOAST) return a builder equal to the index_rel.wtml on disk.",
     note="WWT client's template expansion modelled ({1},{2},{3}); tiling work inside FitsTiler.tile() stubbed; tile_levels = deepest populated layer via C08/C09/C06.",
 )
 
 CHECKS["C07"] = dict(
     engine="E4-decy-euf", ref="DESIGN.md §4.10",
     technique="z3-backed symbolic execution (symx path exploration) of the decythonised _tile_intersects_latlon_bbox on real tile corners with a symbolic box and on fully symbolic corners under the stated tile hypothesis; of the real chunk-sampler closures with a symbolic sky point; and of the real WcsSampler._image_bounds with a symbolic affine WCS",
-    text="For every real TOAST tile of levels 1..5 (thorough 1..7), both coordinate systems, and EVERY lat/lon box (symbolic origin, width up to 4pi, poles and wrap seam included) the bounding-box test accepts the tile whenever one of its selected pixel centres (or extreme pixel centres of its descendants two levels deeper) is in the box; under hypothesis H it does so for every corner configuration, every longitude order and wrap; the filter never writes to the tile; chunk filters get exactly the chunk rectangle, the chunk grid tiles the map and each chunk sampler accepts exactly the points of its own cells and reads the right cell (all sky points, stated grids); _image_bounds contains the whole footprint for plate-carree WCSs with symbolic scales/parity/reference values at stated sizes and rotations, and for a latitude maximum at a symbolic interior pixel (quadratic, pole-like map) its refined maximum lies within one pixel of the extremum.",
+    text="For every real TOAST tile of levels 1..5 (thorough 1..7), both coordinate systems, and EVERY lat/lon box (symbolic origin, width up to 4pi, poles and wrap seam included) the bounding-box test accepts the tile whenever one of its selected pixel centres (or extreme pixel centres of its descendants two levels deeper) is in the box; under hypothesis H it does so for every corner configuration, every longitude order and wrap; the filter never writes to the tile; chunk filters get exactly the chunk rectangle, the chunk grid tiles the map and each chunk sampler accepts exactly the points of its own cells and reads the right cell, also when an arbitrary earlier request went through the same sampler closure (content model of its kept buffer) (all sky points, stated grids); _image_bounds contains the whole footprint for plate-carree WCSs with symbolic scales/parity/reference values at stated sizes and rotations, and for a latitude maximum at a symbolic interior pixel (quadratic, pole-like map) its refined maximum lies within one pixel of the extremum.",
     note="reals for doubles; H is an assumption about TOAST tile geometry (rejected H-configurations are reported only when a real tile reproduces them); pixel centres for the real-tile obligations are the grid corners, the centre and the latitude / longitude extremes of the real 256x256 grid; non-affine WCS projections (wcslib) are outside the claim; the compiled extension is validated against the .pyx (cannot be rebuilt here).",
 )
